@@ -45,6 +45,24 @@ def main():
         findings.append(f"per-atom drives [1,2,3,4]: occupations with optimize_qubit_ordering=True "
                         f"{[round(float(x), 5) for x in a]} differ from False {[round(float(x), 5) for x in b]} "
                         f"(perm {perm})")
+    # (c) observables that refer to the atoms through a user-supplied state: the qubit-order optimisation must not change
+    # them either (it is switched off for them, or their reference is brought to the internal order)
+    try:
+        from emu_mps import MPS
+        from pulser.backend import Fidelity, Occupation
+        ref_state = MPS.from_state_amplitudes(eigenstates=("r", "g"), amplitudes={"rggg": 0.8, "ggrg": 0.6j})
+        vals = {}
+        for opt in (True, False):
+            _, sd_f, cfg_f = N.make_impl(opt, observables=[Fidelity(state=ref_state, evaluation_times=[1.0]),
+                                                            Occupation(evaluation_times=[1.0])])
+            res = MPSBackend._run_from_sequence_data(sd_f, cfg_f)
+            vals[opt] = (float(torch.as_tensor(res.fidelity[-1]).real), torch.as_tensor(res.occupation[-1]))
+        if abs(vals[True][0] - vals[False][0]) > 1e-6 or not torch.allclose(vals[True][1], vals[False][1], atol=1e-6):
+            findings.append(f"Fidelity against 0.8|rggg> + 0.6i|ggrg>: optimize_qubit_ordering=True gives {vals[True][0]:.6f}, "
+                            f"False gives {vals[False][0]:.6f} (occupations {[round(float(x), 5) for x in vals[True][1]]} vs "
+                            f"{[round(float(x), 5) for x in vals[False][1]]})")
+    except (ImportError, AttributeError, TypeError) as e:
+        print(f"  note: Fidelity scenario skipped ({type(e).__name__}: {str(e)[:120]})")
     if not findings:
         print(f"NOT-REPRODUCED: perm {perm}: register order reported by run() and resume(); permute_results moves every "
               "container home; on/off agree")
